@@ -545,6 +545,7 @@ func init() {
 				spec = &Spec{N: n, Hist: canonHist(r, n, edges, retries), Plan: plan, Policy: "eager", HoldUS: 50 + r.intn(150), NGraphs: 2 + r.intn(3), PSeed: r.u64()}
 				spec.ViaLookup = idx%3 == 0
 				spec.RetriesOnlyG0 = onlyG0
+				spec.Redefine = (idx/4)%5 == 2
 				if r.chance(1, 2) {
 					spec.MaxPar = 1 + r.intn(2)
 				}
@@ -567,6 +568,7 @@ func init() {
 					spec.QuietMask = r.intn(1 << uint(n)) // tasks that write nothing
 				}
 				spec.Nested = spec.QuietMask&1 == 0 && r.chance(1, 3)
+				spec.ValWriter = r.chance(1, 4)
 				spec.Policy = []string{"all", "eager", "rand"}[r.intn(3)]
 				spec.HoldUS = r.intn(50)
 				if r.chance(1, 3) {
@@ -636,7 +638,7 @@ func init() {
 					hist = append(hist, histCall(r.intn(nHistCalls)))
 				}
 				if r.chance(1, 6) {
-					hist = append(hist, Call{Op: []string{"addnil", "depnil"}[r.intn(2)], A: r.intn(3)})
+					hist = append(hist, Call{Op: []string{"addnil", "depnil", "addnofn"}[r.intn(3)], A: r.intn(3)})
 				}
 				cell = "history|random-long"
 			} else {
@@ -706,7 +708,17 @@ func init() {
 			if idx >= histCases(maxLen) && !m.DefErr && !m.Cycle && r.chance(1, 8) {
 				// the graph has been run before (a chain of tasks that completed); half of the new tasks depend on one of them
 				spec.PreTasks, spec.PreLink = 2+r.intn(3), true
+				if r.chance(1, 3) {
+					// ... and is extended through TaskDependsOn only (tasks are added implicitly), without a limit of its own
+					hist = nil
+					for t := 1; t < n; t++ {
+						hist = append(hist, Call{Op: "dep", A: t, B: []int{t - 1 - r.intn(t)}})
+					}
+					spec.Hist, spec.MaxPar, spec.Serial = hist, 0, false
+					m = BuildModel(n, hist)
+				}
 			}
+			spec.Space = r.chance(1, 10)
 			if idx >= histCases(maxLen) && r.chance(1, 25) {
 				// wide and uncontrolled: one ErrorSkipParents task with dozens of dependents next to dozens of short independent
 				// tasks, everything completing at about the same time (completions of skipped vertices compete with real ones)
